@@ -3,7 +3,8 @@ C07 — rescaling genome coordinates and mutation rate together leaves dates unc
 
 A  theorems in Props/C07 (coordinate grading: mu*span and span ratios have degree 0; likelihood tables,
    span fractions, span-weighted mixture prior, the whole discrete view, edge likelihoods of the
-   variational method unchanged for every c != 0).
+   variational method unchanged for every c != 0; `_count_mutations` (plain) returns the same counts and
+   mutation->edge map and spans x c, derived from the sweep cluster committed correctness theorem).
 B  the executable models (Driver/Scale.lean, Float) against the real code, at base AND rescaled
    coordinates: Poisson parameters recorded by rebinding scipy.stats.poisson, spans / span fractions,
    mixture_expect_and_var, edge_likelihoods; count_mutations compared across scales on the real function.
@@ -17,8 +18,8 @@ from .. import common, gen, scale_corr as sc
 from ..common import Result, Violation
 
 META = dict(
-    level='Lean theorems, for every c != 0 (c > 0 where positions are compared) over any linear ordered field: every Poisson parameter dt*mu*span, every span fraction and root fraction, the span-weighted mixture prior, hence the whole unit-free view of a discrete run and its time grid are unchanged, so posterior means/variances of inside_outside and the maximization estimates are identical for ANY recursion reading only that view; edge likelihoods (count, span*mu) of the variational method are unchanged GIVEN that count_mutations returns the same counts and spans x c, hence so is any function of them (EP, rescaling, constraint). Partial: the count_mutations sweep and SpansBySamples are not modelled here (their coordinate behaviour is checked on the real functions across scales); floating point by tolerance only. Models tied to the code bit-for-bit at Float at base and rescaled coordinates; date() checked metamorphically over 4 coordinate scale factors.',
-    note='Lean kernel + {propext, Classical.choice, Quot.sound}; exact arithmetic; sampled correspondence; scipy pmf/cdf uninterpreted',
+    level='Lean theorems, for every c != 0 (c > 0 where positions are compared) over any linear ordered field: every Poisson parameter dt*mu*span, every span fraction and root fraction, the span-weighted mixture prior, hence the whole unit-free view of a discrete run and its time grid are unchanged, so posterior means/variances of inside_outside and the maximization estimates are identical for ANY recursion reading only that view; `_count_mutations` (plain variant, over the sweep cluster model and its committed correctness theorem) returns the same counts and mutation-to-edge map and spans x c on valid tables, edge likelihoods (count, span*mu) of the variational method are therefore unchanged, hence so is any function of them (EP, rescaling, constraint). Partial: the size-biased count_mutations variant and SpansBySamples are not covered by a theorem here (their coordinate behaviour is checked on the real functions across scales); floating point by tolerance only. Models tied to the code bit-for-bit at Float at base and rescaled coordinates; date() checked metamorphically over 4 coordinate scale factors.',
+    note='Lean kernel + {propext, Classical.choice, Quot.sound}; exact arithmetic; sampled correspondence; scipy pmf/cdf uninterpreted; imports the sweep cluster CountMut model and countWith_correct (tied to the real kernel by C24)',
     technique='second grading of the degree discipline (coordinate degree) + bit-exact model/code correspondence + metamorphic oracle',
     ref='§3 C07',
 )
@@ -27,7 +28,7 @@ LEAN_BUILD = ["TsdateVerif.Model.Proto", "TsdateVerif.Model.Scale", "TsdateVerif
 ASSUMPTIONS = [
     "theorems are about exact arithmetic; floating-point agreement by tolerance (discrete 1e-9, variational 1e-6 means / 1e-5 variances)",
     "the Poisson pmf, prior cdfs and the inside/outside/maximization/EP recursions are arbitrary functions of arguments proved unchanged",
-    "the count_mutations sweep and SpansBySamples (tskit tree iteration) are outside the theorems; their coordinate behaviour (same counts and mutation-to-edge map, spans x c) is checked on the real functions across scales",
+    "size-biased count_mutations and SpansBySamples (tskit tree iteration) are outside the theorems; their coordinate behaviour (same counts and mutation-to-edge map, spans x c) is checked on the real functions across scales",
 ]
 
 def classify_raise(r):
